@@ -216,8 +216,11 @@ Proof.
   destruct f.
   - destruct (is_idle _); simpl; rewrite ntasks_commit, ntasks_check_affected; unfold ntasks; simpl;
       rewrite ?set_nth_length; reflexivity.
-  - destruct (state_eqb _ SUCCESS); [reflexivity|]. simpl.
-    rewrite ntasks_commit, ntasks_check_affected. unfold ntasks. simpl. rewrite set_nth_length. reflexivity.
+  - destruct (negb r && negb (is_idle _)); [reflexivity|].
+    destruct (negb r).
+    + simpl. rewrite ntasks_commit, ntasks_check_affected. unfold ntasks. simpl. rewrite set_nth_length. reflexivity.
+    + destruct (state_eqb _ SUCCESS); [reflexivity|]. simpl.
+      rewrite ntasks_commit, ntasks_check_affected. unfold ntasks. simpl. rewrite set_nth_length. reflexivity.
 Qed.
 
 Lemma ntasks_run_ops sp ops : forall s, ntasks (run_ops sp s ops) = ntasks s.
